@@ -17,11 +17,22 @@ fn arg_after(args: &[String], flag: &str) -> Option<String> {
 
 fn main() {
     let args: Vec<String> = std::env::args().collect();
-    if args.len() < 3 && args.get(1).map(|s| s.as_str()) != Some("exec-case") {
+    if args.len() < 3 && !matches!(args.get(1).map(|s| s.as_str()), Some("exec-case") | Some("plan")) {
         eprintln!("usage: mverif check <ID> [--tier quick|thorough] [--seed N] [--replay FILE] | mverif worker <ID> <part> --cases N --seed S --out FILE --tier T");
         std::process::exit(2);
     }
     match args[1].as_str() {
+        "plan" => {
+            // prints the parts of every check: name, shards x cases per shard, environment
+            for tier in ["quick", "thorough"] {
+                for k in 1..=19 {
+                    let id = format!("C{:02}", k);
+                    let parts: Vec<String> = parts::plan(&id, tier).iter().map(|p| format!("{} {}x{}{}", p.name, p.shards, p.cases, if p.env.is_empty() { String::new() } else { format!(" [{}]", p.env.iter().map(|(a, b)| format!("{}={}", a, b)).collect::<Vec<_>>().join(" ")) })).collect();
+                    println!("{} {}: {}", tier, id, parts.join(" | "));
+                }
+            }
+            std::process::exit(0);
+        }
         "worker" => worker_main(&args),
         "exec-case" => {
             world::install_panic_hook();
